@@ -409,7 +409,7 @@ func (self Value) Interface(opts *Options) (interface{}, error) {
 			if id == f.Number() {
 				if typDesc.IsMap() || typDesc.IsList() {
 					it.p.Read = tagPos
-					if _, err := it.p.SkipAllElements(id, typDesc.IsPacked()); err != nil {
+					if _, err := it.p.SkipAllElementsWithType(id, typDesc.IsPacked(), typDesc.Elem().WireType()); err != nil {
 						return nil, errValue(meta.ErrRead, "SkipAllElements in LIST/MAP failed", err)
 					}
 					s = tagPos
